@@ -233,6 +233,99 @@ Proof.
         destruct (is_file kd); cbn [fst snd]; [reflexivity | rewrite !N.add_0_l; symmetry; apply pair_eta].
 Qed.
 
+(* ---------- the node cache ---------- *)
+Section Cache.
+Variable kn : bytes -> bool -> bool.
+Variable ke : bytes -> bool.
+Variable tid : list tree -> N.
+Hypothesis tid_inj : forall a b, tid a = tid b -> a = b.   (* tree IDs are content hashes *)
+
+Lemma rwc_node_eq st loc name kind size meta kids :
+  rwc_node kn ke tid st loc (Node name kind size meta kids) =
+    let p := desc loc name in
+    if negb (kn p (is_dir kind)) then (None, st)
+    else if is_dir kind then
+      match lookup (tid kids) st with
+      | Some ks => (Some (Node name kind size meta ks), st)
+      | None =>
+          let '(ks, st1) := rwc_list kn ke tid st p kids in
+          if andb (is_nil ks) (negb (ke p)) then (None, st1)
+          else (Some (Node name kind size meta ks), (tid kids, ks) :: st1)
+      end
+    else (Some (Node name kind size meta kids), st).
+Proof.
+  cbn [rwc_node]. cbv zeta. destruct (negb (kn (desc loc name) (is_dir kind))); [reflexivity|].
+  destruct (is_dir kind); [|reflexivity]. destruct (lookup (tid kids) st); [reflexivity|].
+  assert (E : forall l st0, (fix go (st : cache) (l : list tree) : list tree * cache :=
+                 match l with
+                 | [] => ([], st)
+                 | k :: r => let '(o, st') := rwc_node kn ke tid st (desc loc name) k in
+                             let '(rs, st'') := go st' r in
+                             (match o with Some k' => k' :: rs | None => rs end, st'')
+                 end) st0 l = rwc_list kn ke tid st0 (desc loc name) l).
+  { induction l as [|k r IH]; intro st0; [reflexivity|]. cbn [rwc_list].
+    destruct (rwc_node kn ke tid st0 (desc loc name) k) as [o st']. rewrite IH. reflexivity. }
+  rewrite E. reflexivity.
+Qed.
+
+(* the filter's decisions do not depend on where a tree sits *)
+Definition path_independent : Prop := forall p q kids, rw_dir kn ke p kids = rw_dir kn ke q kids.
+(* every stored result is the uncached answer for that tree at every path *)
+Definition cache_ok (st : cache) : Prop :=
+  forall kids ks, lookup (tid kids) st = Some ks -> forall p, rw_dir kn ke p kids = Some ks.
+
+Lemma cached_sound_n : path_independent -> forall n kids st loc, lsize kids <= n -> cache_ok st ->
+  fst (rwc_list kn ke tid st loc kids) = rw_list kn ke loc kids /\ cache_ok (snd (rwc_list kn ke tid st loc kids)).
+Proof.
+  intro PI. induction n as [|n IH]; intros kids st loc L OK.
+  - destruct kids as [|[nm kd sz mt ks] r]; [split; [reflexivity | exact OK]|]. rewrite lsize_cons in L. lia.
+  - destruct kids as [|[nm kd sz mt ks] r]; [split; [reflexivity | exact OK]|]. rewrite lsize_cons in L.
+    cbn [rwc_list rw_list]. rewrite rwc_node_eq, rw_node_eq. cbv zeta. set (p := desc loc nm).
+    assert (REST : forall o st', cache_ok st' ->
+       fst (let '(rs, st'') := rwc_list kn ke tid st' loc r in (match o with Some k' => k' :: rs | None => rs end, st'')) =
+         match o with Some k' => k' :: rw_list kn ke loc r | None => rw_list kn ke loc r end /\
+       cache_ok (snd (let '(rs, st'') := rwc_list kn ke tid st' loc r in (match o with Some k' => k' :: rs | None => rs end : list tree, st'')))).
+    { intros o st' OK'. destruct (IH r st' loc ltac:(lia) OK') as [E1 E2].
+      destruct (rwc_list kn ke tid st' loc r) as [rs st'']. cbn [fst snd] in *. subst rs. split; [reflexivity | exact E2]. }
+    destruct (negb (kn p (is_dir kd))); [exact (REST None st OK)|].
+    destruct (is_dir kd); [|exact (REST (Some (Node nm kd sz mt ks)) st OK)].
+    destruct (lookup (tid ks) st) as [cs|] eqn:LK.
+    + (* cache hit *)
+      pose proof (OK ks cs LK p) as H. unfold rw_dir in H.
+      destruct (andb (is_nil (rw_list kn ke p ks)) (negb (ke p))); [discriminate|]. inversion H as [H1]. rewrite H1.
+      exact (REST (Some (Node nm kd sz mt cs)) st OK).
+    + destruct (IH ks st p ltac:(lia) OK) as [E1 E2].
+      destruct (rwc_list kn ke tid st p ks) as [cs st1]. cbn [fst snd] in E1, E2. subst cs.
+      destruct (andb (is_nil (rw_list kn ke p ks)) (negb (ke p))) eqn:Z; [exact (REST None st1 E2)|].
+      apply (REST (Some (Node nm kd sz mt (rw_list kn ke p ks))) ((tid ks, rw_list kn ke p ks) :: st1)). intros kids' ks' LK' q. cbn [lookup] in LK'.
+      destruct (N.eqb (tid kids') (tid ks)) eqn:T.
+      * apply N.eqb_eq in T. apply tid_inj in T. subst kids'. inversion LK'; subst ks'.
+        rewrite (PI q p ks). unfold rw_dir. rewrite Z. reflexivity.
+      * exact (E2 kids' ks' LK' q).
+Qed.
+
+(* with path-independent decisions the cache changes nothing *)
+Theorem cache_sound : path_independent -> forall top loc,
+  fst (rwc_list kn ke tid [] loc top) = rw_list kn ke loc top.
+Proof.
+  intros PI top loc. apply (cached_sound_n PI (lsize top) top [] loc (le_n _)). intros kids ks H. discriminate.
+Qed.
+End Cache.
+
+(* decisions that look at the last path component only are path-independent *)
+Theorem basename_filters_independent (f : bytes -> bool -> bool) (g : bool) kn ke :
+  (forall loc name d, kn (desc loc name) d = f name d) -> (forall p, ke p = g) -> path_independent kn ke.
+Proof.
+  intros HK HE p q kids. unfold rw_dir. rewrite (HE p), (HE q).
+  assert (E : forall n l a b, lsize l <= n -> rw_list kn ke a l = rw_list kn ke b l).
+  { induction n as [|n IH]; intros l a b L.
+    - destruct l as [|[nm kd sz mt ks] r]; [reflexivity|]. rewrite lsize_cons in L. lia.
+    - destruct l as [|[nm kd sz mt ks] r]; [reflexivity|]. rewrite lsize_cons in L.
+      cbn [rw_list]. rewrite !rw_node_eq. cbv zeta. rewrite !HK, (HE (desc a nm)), (HE (desc b nm)).
+      rewrite (IH r a b ltac:(lia)), (IH ks (desc a nm) (desc b nm) ltac:(lia)). reflexivity. }
+  rewrite (E _ kids p q (le_n _)). reflexivity.
+Qed.
+
 (* ---------- the filters of cmd_rewrite.go ---------- *)
 Lemma kn_include_eq ipats pats : kn_include ipats pats = kn_mc (inc_m ipats pats) (inc_c ipats pats).
 Proof. reflexivity. Qed.
@@ -272,6 +365,18 @@ Proof.
 Qed.
 
 From Coq Require Import String. Open Scope string_scope.
+(* the other direction by witness: rewrite's exclude filter is path-dependent, and with the cache enabled the
+   subtree that occurs under /s/a and /s/c would lose "k" in both places although only /s/a/k is excluded *)
+Example cache_unsound_for_path_filters :
+  let B := [Node (str "k") 1 0 7 [Node (str "f") 0 3 8 []]] in
+  let top := [Node (str "s") 1 0 1 [Node (str "a") 1 0 2 B; Node (str "c") 1 0 3 B]] in
+  let tid := fun l : list tree => N.of_nat (List.length (flat_list [] l)) in
+  let kn := kn_exclude [] [str "/s/a/k"] in
+  rw_list kn ke_exclude [] top = [Node (str "s") 1 0 1 [Node (str "a") 1 0 2 []; Node (str "c") 1 0 3 B]] /\
+  fst (rwc_list kn ke_exclude tid [] [] top) = [Node (str "s") 1 0 1 [Node (str "a") 1 0 2 []; Node (str "c") 1 0 3 []]] /\
+  rw_dir kn ke_exclude (str "/s/a") B <> rw_dir kn ke_exclude (str "/s/c") B.
+Proof. vm_compute. repeat split. discriminate. Qed.
+
 Example c27_nonvacuous :
   let top := [Node (str "s") 1 0 1 [Node (str "a") 1 0 2 [Node (str "x.go") 0 7 3 []; Node (str "y") 0 5 4 []];
                                      Node (str "e") 1 0 5 []]] in
